@@ -269,7 +269,16 @@ func hbSystem(t *testing.T, h *H) {
 		if len(trs) == 2 && i%2 == 0 {
 			t0 = time.Duration(h.R.Intn(200)) * time.Millisecond // during the upgrade
 		}
-		live := i%6 == 5 // no fault at all: 50 idle periods
+		live := i%6 == 5 || i%6 == 2 // no fault at all: 50 idle periods
+		// every other live scenario that upgrades has a slow uplink on the WebSocket: the upgrade takes about three latencies and
+		// the first ping falls due between the probe's answer and the arrival of the UPGRADE packet
+		slowWS := time.Duration(0)
+		if live && len(trs) == 2 {
+			slowWS = time.Duration(float64(I) * (0.34 + 0.15*float64(h.R.Intn(100))/100))
+			// a ping that waits for the upgrade to complete and whose answer crosses the slow uplink needs up to two latencies:
+			// the peer is live in the property's sense when that is below the timeout
+			T = 2*slowWS + time.Second
+		}
 		var (
 			mu                   sync.Mutex
 			srvAt, cliAt         time.Duration = -1, -1
@@ -278,7 +287,8 @@ func hbSystem(t *testing.T, h *H) {
 			over                 bool // the observation window is over: later events are the harness' own tear-down
 		)
 		synctest.Test(t, func(t *testing.T) {
-			r := newRig(&sio.ServerConfig{EIO: eio.ServerConfig{PingInterval: I, PingTimeout: T}})
+			r := newRig(&sio.ServerConfig{EIO: eio.ServerConfig{PingInterval: I, PingTimeout: T, UpgradeTimeout: 10 * time.Second}})
+			r.net.wsLatency = slowWS
 			start := time.Now()
 			r.server.OnConnection(func(s sio.ServerSocket) {
 				s.OnDisconnect(func(reason sio.Reason) {
@@ -290,7 +300,7 @@ func hbSystem(t *testing.T, h *H) {
 				})
 				s.OnEvent("tick", func(int) { mu.Lock(); traffic++; mu.Unlock() })
 			})
-			m := r.manager(trs, &sio.ManagerConfig{NoReconnection: true})
+			m := r.manager(trs, &sio.ManagerConfig{NoReconnection: true, EIO: eio.ClientConfig{UpgradeTimeout: 10 * time.Second}})
 			c := m.Socket("/", nil)
 			c.OnDisconnect(func(reason sio.Reason) {
 				mu.Lock()
@@ -324,7 +334,7 @@ func hbSystem(t *testing.T, h *H) {
 		})
 		desc := fmt.Sprintf("I=%v T=%v transports=%v blackhole=%s at t0=%v", I, T, trs, d.name, t0)
 		if live {
-			desc = fmt.Sprintf("I=%v T=%v transports=%v no fault, idle for 50 periods", I, T, trs)
+			desc = fmt.Sprintf("I=%v T=%v transports=%v no fault, idle for 50 periods, WebSocket uplink latency %v", I, T, trs, slowWS)
 		}
 		h.Eval()
 		h.NonTrivial(desc)
